@@ -6,6 +6,42 @@ use std::collections::{BTreeMap, BTreeSet, HashSet};
 use std::path::PathBuf;
 use std::time::Instant;
 
+/// Where verdict lines go.  The code under test prints to stdout (`println!` in the firmware
+/// upload); `silence_stdout` points fd 1 at /dev/null and keeps the original for our own lines.
+static OUT_FD: std::sync::atomic::AtomicI32 = std::sync::atomic::AtomicI32::new(1);
+
+pub fn silence_stdout() {
+    unsafe {
+        let saved = libc::dup(1);
+        let null = libc::open(b"/dev/null\0".as_ptr() as *const libc::c_char, libc::O_WRONLY);
+        if saved >= 0 && null >= 0 {
+            libc::dup2(null, 1);
+            libc::close(null);
+            OUT_FD.store(saved, std::sync::atomic::Ordering::SeqCst);
+        }
+    }
+}
+
+pub fn out_write(s: &str) {
+    let fd = OUT_FD.load(std::sync::atomic::Ordering::SeqCst);
+    let b = s.as_bytes();
+    let mut off = 0;
+    while off < b.len() {
+        let n = unsafe { libc::write(fd, b[off..].as_ptr() as *const libc::c_void, b.len() - off) };
+        if n <= 0 {
+            break;
+        }
+        off += n as usize;
+    }
+}
+
+#[macro_export]
+macro_rules! outln {
+    ($($arg:tt)*) => {
+        $crate::evidence::out_write(&format!("{}\n", format!($($arg)*)))
+    };
+}
+
 pub const DISTINCT_CAP: usize = 6_000_000;
 
 pub fn root() -> PathBuf {
@@ -258,7 +294,7 @@ impl Report {
         }
         // verdict lines
         for sig in &known_seen {
-            println!("KNOWN-FINDING: property={} {}", self.property, sig);
+            outln!("KNOWN-FINDING: property={} {}", self.property, sig);
         }
         let mut code = 0;
         if !unlisted.is_empty() {
@@ -268,19 +304,19 @@ impl Report {
                 let path = dir.join(format!("{}-{}-{}.json", self.tier, self.seed, i));
                 let body = json!({"property": self.property, "tier": self.tier, "seed": self.seed, "signature": sig, "what": what, "case": replay});
                 let _ = std::fs::write(&path, serde_json::to_string_pretty(&body).unwrap() + "\n");
-                println!("VIOLATION property={} replay={}", self.property, path.display());
-                println!("  signature: {sig}");
-                println!("  what: {what}");
+                outln!("VIOLATION property={} replay={}", self.property, path.display());
+                outln!("  signature: {sig}");
+                outln!("  what: {what}");
             }
             code = 1;
         }
         if code == 0 && !self.inconclusive.is_empty() {
             for why in &self.inconclusive {
-                println!("INCONCLUSIVE property={} {}", self.property, why);
+                outln!("INCONCLUSIVE property={} {}", self.property, why);
             }
             code = 2;
         }
-        println!(
+        outln!(
             "{} tier={} seed={} evaluations={} distinct_nontrivial={} violations={} known_findings={} wall={:.1}s -> {}",
             self.property,
             self.tier,
